@@ -75,6 +75,7 @@ def run(res, tier, seed, widen=1):
         res.nontriv((prev, p))
         res.count("dict" if r is not None else "none")
     res.extra["worst_seconds_per_octet"] = worst
+    _messages(res, rng, tier, widen, payloads)
     # P1 parser: real loop iterations vs the model's counter, linear bound
     texts = [p for p in payloads if p and all(c < 128 for c in p)][: (300 if tier == "quick" else 5000)]
     for t, a in zip(texts, lib.drive([f"p1.parse {lib.hexs(t)}" for t in texts])):
@@ -96,6 +97,60 @@ def run(res, tier, seed, widen=1):
     res.sample({"payload": payloads[len(payloads) // 3].hex()[:120]})
 
 
+def _messages(res, rng, tier, widen, payloads):
+    """decode_message on message OBJECTS: P1 readouts (genuine, and with 1..3 octets replaced - half of them non-ASCII - in
+    the identification line, the data lines or the end line) and DLMS messages, with every remembered decoder"""
+    import p1_common as P
+    from han.autodecoder import AutoDecoder
+    from han.common import DlmsMessage
+    from han.dlde import DataReadout
+    msgs = []
+    for _ in range((250 if tier == "quick" else 6000) * widen):
+        ro = bytearray(P.gen_readout(rng))
+        for _ in range(rng.choice([0, 1, 1, 2, 3])):
+            ro[rng.randrange(len(ro))] = rng.randrange(128, 256) if rng.random() < 0.5 else rng.randrange(128)
+        msgs.append(("P", bytes(ro)))
+    for p in payloads[: (150 if tier == "quick" else 3000) * widen]:
+        if p:
+            msgs.append(("D", p))
+    cases = []
+    for n, (kind, b) in enumerate(msgs):
+        for prev in ((None, 0, 1, 2, 3, 4, 5, 6) if n % 6 == 0 else (rng.choice([None, 0, 1, 2, 3, 4, 5, 6]),)):
+            cases.append((prev, kind, b))
+    answers = lib.drive([f"automsg {'N' if prev is None else prev} {kind} {lib.hexs(b)}" for prev, kind, b in cases])
+    for (prev, kind, b), a in zip(cases, answers):
+        try:
+            msg = DataReadout(b) if kind == "P" else DlmsMessage(b)
+        except Exception:  # noqa  (not a message object: the constructor rejects these bytes)
+            res.count("message_rejected_by_constructor")
+            continue
+        ad = AutoDecoder()
+        setattr(ad, "_AutoDecoder__previous_success", prev)
+        res.evaluations += 1
+        case = {"op": "automsg", "prev": prev, "kind": kind, "hex": b.hex()}
+        signal.alarm(2)
+        try:
+            r = ad.decode_message(msg)
+            after = getattr(ad, "_AutoDecoder__previous_success")
+            impl = ("None" if r is None else D.render_dict(r)) + " @" + ("N" if after is None else str(after))
+        except _Timeout:
+            res.prop_failure(case, "decode_message did not return within 2 s", "message")
+            continue
+        except Exception as ex:  # noqa
+            res.prop_failure(case, f"{D.exc_name(ex)} escaped decode_message", "message")
+            continue
+        finally:
+            signal.alarm(0)
+        if r is not None and not isinstance(r, dict):
+            res.prop_failure(case, f"decode_message returned {type(r).__name__}, neither a dictionary nor None", "message")
+        if impl != a:
+            res.tie_break(case, impl[:300], a[:300], "message")
+        res.nontriv((prev, kind, b))
+        res.count("message_" + kind + ("_dict" if r is not None else "_none"))
+        if kind == "P" and any(x >= 128 for x in b):
+            res.count("message_P_non_ascii")
+
+
 def search(res, tier, seed):
     run(res, "quick", seed + 7919, widen=3)
 
@@ -108,7 +163,15 @@ def replay(payload, res):
     ok = True
     try:
         signal.alarm(5)
-        if c["op"] == "auto":
+        if c["op"] == "automsg":
+            from han.common import DlmsMessage
+            from han.dlde import DataReadout
+            ad = AutoDecoder()
+            setattr(ad, "_AutoDecoder__previous_success", c["prev"])
+            b = bytes.fromhex(c["hex"])
+            r = ad.decode_message(DataReadout(b) if c["kind"] == "P" else DlmsMessage(b))
+            print("result:", None if r is None else D.render_dict(r)[:300])
+        elif c["op"] == "auto":
             ad = AutoDecoder()
             setattr(ad, "_AutoDecoder__previous_success", c["prev"])
             for p in c["payloads"]:
